@@ -10,7 +10,7 @@ SIGNATURE = 0xBEDA107F
 
 def build(rng, *, block_size: int, nblocks: int, tail_cut: int = 0, states=None, placement: str = "shuffle",
           blocks_offset: int | None = None, data_gap: int = 0, holes: int = 0, tag: int = 1, kind: int = 0,
-          header_size: int = 0x190, uuid: bytes | None = None, parent_uuid: bytes = b"\0" * 16,
+          header_size: int = 0x190, dense: bool = False, uuid: bytes | None = None, parent_uuid: bytes = b"\0" * 16,
           description: bytes = b"", image_type: int = 1):
     """-> (SparseFile, Layer, meta). states[i] in {'A','U','Z'} per logical block."""
     size = nblocks * block_size - tail_cut
@@ -68,10 +68,14 @@ def build(rng, *, block_size: int, nblocks: int, tail_cut: int = 0, states=None,
     sf = SparseFile()
     sf.put(0, hdr)
     sf.put(blocks_offset, map_bytes)
-    for i, p in pmap.items():
-        first = i * spb
-        # the last block of a disk that is not a block multiple is still stored in full
-        sf.put(data_offset + p * block_size, PatternGen(layer, first, spb))
+    if dense and pmap and all(i == p for i, p in pmap.items()) and len(pmap) == nblocks:
+        # identity map over the whole disk: one lazy extent instead of one per block
+        sf.put(data_offset, PatternGen(layer, 0, nblocks * spb))
+    else:
+        for i, p in pmap.items():
+            first = i * spb
+            # the last block of a disk that is not a block multiple is still stored in full
+            sf.put(data_offset + p * block_size, PatternGen(layer, first, spb))
     sf.size = max(sf.end, data_offset + nphys * block_size)
     meta = {
         "size": size, "block_size": block_size, "nblocks": nblocks, "blocks_offset": blocks_offset,
